@@ -44,6 +44,8 @@ def all_comments(d, out=None):
         if isinstance(cm, dict):
             for k, v in cm.items():
                 vs = v if isinstance(v, list) else [v]
+                if not all(isinstance(x, str) for x in vs):
+                    raise ValueError(f"comments-shape: __comments__[{k!r}] is neither a string nor a list of strings: {v!r}"[:200])
                 if k == "__type__":
                     out[0].extend(vs)
                 elif vs:
@@ -191,7 +193,11 @@ def explore(ctx, scale=1.0):
                     if "__position__" in got or "__comments__" in got:
                         ctx.violation("print:hidden-key-printed", "dumps prints bookkeeping data", dict(rep, options=o))
                         break
-                    got2 = remove_comment_text(got, d, o["newlinechar"]) if com else got
+                    try:
+                        got2 = remove_comment_text(got, d, o["newlinechar"]) if com else got
+                    except ValueError as ex:
+                        ctx.violation("flags:comments-shape", str(ex), dict(rep, options=o))
+                        break
                     if got2 != want:
                         ctx.violation("print:differs" + (":align" if o.get("align_values") else ""),
                                       "dumps of the dictionary loaded with bookkeeping differs from dumps of the plain dictionary in more than comment text",
